@@ -450,18 +450,51 @@ theorem explicitTerms_getElem (H : Horiz K) (P : HSParams K) (sigmas trefs lsp :
   simp only [explicitTerms, List.getElem_zipWith, List.getElem_zip]
 
 omit [Transc K] in
-/-- nodal velocity tendency, pointwise: `-kv · x / cos_lat²` -/
+/-- nodal velocity tendency, pointwise: `-kv · x / cos_lat²`, at every node where `cos_lat ≠ 0` (the
+ named side condition of the division; at a pole node the real code divides by zero).  With it the
+ quotient is genuine: multiplied back by `cos_lat²` it is `-kv · x` -/
 theorem nodalVelocityTendency_eq (kf sigmaB sigma : K) (cosLats xs : List K) (i : ℕ)
     (hi : i < (velTendency kf sigmaB sigma cosLats xs).length) (h1 : i < cosLats.length)
-    (h2 : i < xs.length) :
-    (velTendency kf sigmaB sigma cosLats xs)[i] = -(kv kf sigmaB sigma) * xs[i] / cosLats[i] ^ 2 := by
-  simp only [velTendency, velTend1, List.getElem_zipWith, powN_eq_pow]
+    (h2 : i < xs.length) (hc : cosLats[i] ≠ 0) :
+    (velTendency kf sigmaB sigma cosLats xs)[i] = -(kv kf sigmaB sigma) * xs[i] / cosLats[i] ^ 2 ∧
+    (velTendency kf sigmaB sigma cosLats xs)[i] * cosLats[i] ^ 2 = -(kv kf sigmaB sigma) * xs[i] := by
+  have h : (velTendency kf sigmaB sigma cosLats xs)[i]
+      = -(kv kf sigmaB sigma) * xs[i] / cosLats[i] ^ 2 := by
+    simp only [velTendency, velTend1, List.getElem_zipWith, powN_eq_pow]
+  exact ⟨h, by rw [h, div_mul_cancel₀ _ (pow_ne_zero 2 hc)]⟩
 
 omit [Transc K] in
-/-- the nodal velocity tendency is `-kv` times the wind `cos_lat_u / cos_lat²` -/
-theorem drag_eq_neg_kv_smul (kf sigmaB sigma : K) (cosLats xs : List K) :
-    velTendency kf sigmaB sigma cosLats xs = smul (-(kv kf sigmaB sigma)) (secSq cosLats xs) :=
-  velTendency_eq_smul kf sigmaB sigma cosLats xs
+/-- the nodal velocity tendency is `-kv` times the wind `cos_lat_u / cos_lat²`, on every slice without
+ pole nodes (`cos_lat ≠ 0` everywhere: the named side condition of the division); there the wind is a
+ genuine quotient: multiplied back by `cos_lat²` the tendency is `-kv · cos_lat_u`, pointwise -/
+theorem drag_eq_neg_kv_smul (kf sigmaB sigma : K) (cosLats xs : List K)
+    (hc : ∀ c ∈ cosLats, c ≠ 0) :
+    velTendency kf sigmaB sigma cosLats xs = smul (-(kv kf sigmaB sigma)) (secSq cosLats xs) ∧
+    ∀ (i : ℕ) (hi : i < (velTendency kf sigmaB sigma cosLats xs).length) (h1 : i < cosLats.length)
+      (h2 : i < xs.length),
+      (velTendency kf sigmaB sigma cosLats xs)[i] * cosLats[i] ^ 2 = -(kv kf sigmaB sigma) * xs[i] :=
+  ⟨velTendency_eq_smul kf sigmaB sigma cosLats xs, fun i hi h1 h2 =>
+    (nodalVelocityTendency_eq kf sigmaB sigma cosLats xs i hi h1 h2
+      (hc _ (List.getElem_mem h1))).2⟩
+
+omit [Transc K] in
+/-- pole-free grids satisfy the side condition: when `cos_lat² = 1 − sin_lat²` pointwise (as for
+ `grid.cos_lat = sqrt(1 − sin_lat²)`) and every node has `−1 < sin_lat < 1` (Gauss and equiangular
+ spacing; NOT `equiangular_with_poles`, whose end nodes have `sin_lat = ±1`), `cos_lat ≠ 0` at
+ every node -/
+theorem cosLat_ne_zero_of_poleFree [IsStrictOrderedRing K] (sinLats cosLats : List K)
+    (hl : cosLats.length = sinLats.length)
+    (hcs : ∀ (i : ℕ) (h1 : i < cosLats.length) (h2 : i < sinLats.length),
+      cosLats[i] ^ 2 = 1 - sinLats[i] ^ 2)
+    (hp : ∀ s ∈ sinLats, -1 < s ∧ s < 1) :
+    ∀ c ∈ cosLats, c ≠ 0 := by
+  intro c hcm hc0
+  obtain ⟨i, h1, rfl⟩ := List.getElem_of_mem hcm
+  have h2 : i < sinLats.length := hl ▸ h1
+  have h := hcs i h1 h2
+  obtain ⟨hlo, hhi⟩ := hp _ (List.getElem_mem h2)
+  rw [hc0] at h
+  nlinarith
 
 /-- hypotheses on the external transforms (T2.6): homogeneity of `to_modal`, `curl_cos_lat`,
  `div_cos_lat` -/
@@ -624,5 +657,86 @@ example : Homogeneous hId := ⟨fun _ _ => rfl, fun _ _ _ => rfl, fun _ _ _ => r
 example : WindRoundTrip hId [1, 2] [3, -1] := by
   unfold WindRoundTrip hId secSq
   simp [powN]
+
+/-! ### a non-toy witness for the hypotheses of T20.4
+
+ A transform record on three nodes / three modes with
+ * a pole-free latitude row `sin_lat = 4/5, 0, −3/5`, `cos_lat = 3/5, 1, 4/5` (so the division by
+   `cos_lat²` is not by one);
+ * a non-identity, exactly invertible analysis/synthesis pair (`to_nodal [a,b,c] = [a, a+b, a+b+c]`,
+   `to_modal [x,y,z] = [x, y−x, z−y]`);
+ * `cos_lat_u` mixing vorticity and divergence (`cos²·to_nodal(ζ+δ)`, `cos²·to_nodal(ζ−δ)`);
+ * `curl_cos_lat`, `div_cos_lat` un-mixing them and CLIPPING the top mode, as the real operators do.
+
+ It is homogeneous; the wind round trip holds exactly on the states whose top mode vanishes and fails
+ on a state with energy in the top mode (the domain restriction measured on the real grid). -/
+
+/-- `x[i]` with default 0 -/
+private def g (x : List ℝ) (i : ℕ) : ℝ := x.getD i 0
+
+private theorem g_smul (a : ℝ) (x : List ℝ) (i : ℕ) : g (smul a x) i = a * g x i := by
+  unfold g smul
+  rw [List.getD_eq_getElem?_getD, List.getD_eq_getElem?_getD, List.getElem?_map]
+  cases x[i]? <;> simp
+
+noncomputable def hQ : Horiz ℝ where
+  toModal := fun x => [g x 0, g x 1 - g x 0, g x 2 - g x 1]
+  toNodal := fun x => [g x 0, g x 0 + g x 1, g x 0 + g x 1 + g x 2]
+  curlCosLat := fun x y => [(g x 0 + g y 0) / 2, (g x 1 + g y 1) / 2, 0]
+  divCosLat := fun x y => [(g x 0 - g y 0) / 2, (g x 1 - g y 1) / 2, 0]
+  cosLatU := fun vor div =>
+    ([(3 / 5) ^ 2 * (g vor 0 + g div 0), 1 ^ 2 * (g vor 0 + g div 0 + (g vor 1 + g div 1)),
+      (4 / 5) ^ 2 * (g vor 0 + g div 0 + (g vor 1 + g div 1) + (g vor 2 + g div 2))],
+     [(3 / 5) ^ 2 * (g vor 0 - g div 0), 1 ^ 2 * (g vor 0 - g div 0 + (g vor 1 - g div 1)),
+      (4 / 5) ^ 2 * (g vor 0 - g div 0 + (g vor 1 - g div 1) + (g vor 2 - g div 2))])
+  cosLat := [3 / 5, 1, 4 / 5]
+  lat := [1, 0, -1]
+
+theorem hQ_homogeneous : Homogeneous hQ := by
+  refine ⟨fun a x => ?_, fun a x y => ?_, fun a x y => ?_⟩ <;>
+    simp only [hQ, g_smul] <;>
+    simp only [smul, List.map_cons, List.map_nil, List.cons.injEq, and_true] <;>
+    refine ⟨?_, ?_, ?_⟩ <;> first | trivial | ring
+
+/-- the pole-free side condition of `drag_eq_neg_kv_smul` on this row, through
+ `cosLat_ne_zero_of_poleFree` (`sin_lat = 4/5, 0, −3/5`) -/
+theorem hQ_cosLat_ne_zero : ∀ c ∈ hQ.cosLat, c ≠ 0 := by
+  refine cosLat_ne_zero_of_poleFree [4 / 5, 0, -3 / 5] hQ.cosLat rfl ?_ ?_
+  · intro i h1 h2
+    have : i = 0 ∨ i = 1 ∨ i = 2 := by simp [hQ] at h1; omega
+    rcases this with rfl | rfl | rfl <;> simp [hQ] <;> norm_num
+  · intro s hs
+    simp at hs
+    rcases hs with rfl | rfl | rfl <;> norm_num
+
+/-- the wind round trip on EVERY state whose top mode is clipped -/
+theorem hQ_windRoundTrip (a b c d : ℝ) : WindRoundTrip hQ [a, b, 0] [c, d, 0] := by
+  unfold WindRoundTrip hQ secSq g
+  simp [powN]
+  refine ⟨⟨?_, ?_⟩, ?_, ?_⟩ <;> ring
+
+/-- and not on a state with energy in the top mode: the restriction is necessary -/
+theorem hQ_not_windRoundTrip : ¬ WindRoundTrip hQ [0, 0, 1] [0, 0, 0] := by
+  unfold WindRoundTrip hQ secSq g
+  simp [powN]
+
+/-- T20.4 instantiated on it: in the boundary layer (`sigma = 17/20 > sigma_b = 7/10`, `kv = kf/2`) the
+ drag of a state with non-zero vorticity and divergence is `−kv` times the state -/
+example (P : HSParams ℝ) (tref : ℝ) (lsp tvar : List ℝ) :=
+  drag_tendency hQ P (17 / 20) tref lsp [1, 2, 0] [3, -1, 0] tvar hQ_homogeneous
+    (hQ_windRoundTrip 1 2 3 (-1))
+
+example (kf sigmaB sigma : ℝ) (xs : List ℝ) :=
+  drag_eq_neg_kv_smul kf sigmaB sigma hQ.cosLat xs hQ_cosLat_ne_zero
+
+/-- a row WITH pole nodes violates the side condition (`equiangular_with_poles`: `cos_lat = 0` at both
+ ends); there the model's totalised division returns 0 where the real code returns ±inf/NaN -/
+example : ¬ ∀ c ∈ ([0, 1, 0] : List ℝ), c ≠ 0 := by simp
+example : velTendency (1 : ℝ) (7 / 10) (17 / 20) [0, 1, 0] [5, 5, 5] = [0, -5 / 2, 0] := by
+  rw [velTendency_eq_smul]
+  have hk : kv (1 : ℝ) (7 / 10) (17 / 20) = 1 / 2 := by
+    rw [kv_eq_ramp _ _ _ (by norm_num) (by norm_num)]; norm_num
+  simp [smul, secSq, powN, hk]
+  norm_num
 
 end Dino.C20
